@@ -14,7 +14,7 @@ ALL = [f"C{i:02d}" for i in range(1, 21)]
 TEXT = {
     "C06": {
         "technique": "property-based testing (rapid) + bounded exhaustive enumeration + native coverage-guided fuzzing; identity / concatenation oracle",
-        "text": "Generated-input search: random delimiter-free byte strings and random fragment sequences (text, verbatim, both comment forms, literals, tag blocks, templatetag) against an identity/concatenation oracle, plus complete enumeration of all strings up to length 5 (quick) / 7 (thorough) over the 12 lexer-significant characters. Exploration only: shows absence of violations on what was generated.",
+        "text": "Generated-input search: random delimiter-free byte strings and random fragment sequences (text, verbatim, both comment forms, literals, tag blocks, templatetag) against an identity/concatenation oracle, plus complete enumeration of all strings up to length 5 (quick) / 7 (thorough) over the 12 lexer-significant characters. Exploration only: shows absence of violations on what was generated. Sources reach the engine by every route (FromBytes with the caller's buffer scribbled afterwards, FromString, FromFile, FromCache, RenderTemplate*, as target of include / ssi parsed).",
         "note": "Trusted: the harness' in-memory loader and the independent templatetag table. Fragments carry no '-' markers (C15's domain). Inputs longer than the generated sizes are not covered.",
         "design_ref": "DESIGN.md section 3, C06",
     },
@@ -29,7 +29,7 @@ TEXT["C17"] = {
 
 TEXT["C18"] = {
     "technique": "property-based testing (rapid) + exhaustive integer-argument windows; differential against independent reference functions and shape predicates",
-    "text": "34 data filters and the widthratio tag are run (ApplyFilter and template syntax, which must agree) on generated strings, sequences of every sliceable kind (incl. by-value and pointer arrays), numbers and times, and on exhaustive windows (slice bounds -8..8 squared plus blanks over lengths 0..6 and 7 sequence kinds; widths/lengths -3..20 over strings of 0..12 runes; word counts; digit positions; divisors). Results are compared with small independent reference functions (Python slicing, rune-based sequence operations, decimal rounding on the decimal string, ...) or with the shape predicate the property states. Exploration-level assurance.",
+    "text": "34 data filters and the widthratio tag are run (ApplyFilter and template syntax, which must agree) on generated strings, sequences of every sliceable kind (incl. by-value and pointer arrays), numbers and times, and on exhaustive windows (slice bounds -8..8 squared plus blanks over lengths 0..6 and 7 sequence kinds; widths/lengths -3..20 over strings of 0..12 runes; word counts; digit positions; divisors). Results are compared with small independent reference functions (Python slicing, rune-based sequence operations, decimal rounding on the decimal string, ...) or with the shape predicate the property states. Exploration-level assurance. widthratio is also run over float arguments up to 1e308 against exact rational arithmetic.",
     "note": "Trusted: the reference functions in harness/props/c18_test.go. Fixture-pinned deviations from Django are accepted (listed in the evidence assumptions). Not covered: phone2numeric, title, urlize*, linebreaks, random, truncate*_html (not named by the property).",
     "design_ref": "DESIGN.md section 3, C18",
 }
@@ -50,7 +50,7 @@ TEXT["C14"] = {
 
 TEXT["C15"] = {
     "technique": "property-based testing (rapid); metamorphic relation marked-document vs hand-stripped document, reference implementation for spaceless",
-    "text": "Generated documents (with includes) whose literal text carries random whitespace runs around constructs, every delimiter independently marked with '-', under all four TrimBlocks x LStripBlocks settings, are rendered and compared byte for byte with the same document from which exactly the named whitespace was deleted by hand, compiled with everything off; documents are single files, files with includes, or two-level hierarchies, and in a quarter of the cases the options are set per template (tpl.Options) with the hand-stripped reference compiled in the same set. spaceless is compared with an independent fixed-point implementation of 'remove exactly the whitespace runs between two tags' over bodies with stray angle brackets, multi-line tags and context-supplied markup.",
+    "text": "Generated documents (with includes) whose literal text carries random whitespace runs around constructs, every delimiter independently marked with '-', under all four TrimBlocks x LStripBlocks settings, are rendered and compared byte for byte with the same document from which exactly the named whitespace was deleted by hand, compiled with everything off; documents are single files, files with includes, or two-level hierarchies, and in a quarter of the cases the options are set per template (tpl.Options) with the hand-stripped reference compiled in the same set. spaceless is compared with an independent fixed-point implementation of 'remove exactly the whitespace runs between two tags' over bodies with stray angle brackets, multi-line tags and context-supplied markup. C15.sides checks that a '-' does on its side exactly what it does alone, over text with ASCII and Unicode whitespace.",
     "note": "Trusted: the hand-stripping function (c15Strip) and refSpaceless in harness/props/c15_test.go. Verbatim next to markers, comments next to markers/block tags, and option handling across extends are deliberately outside (see evidence assumptions).",
     "design_ref": "DESIGN.md section 3, C15",
 }
@@ -71,7 +71,7 @@ TEXT["C04"] = {
 
 TEXT["C05"] = {
     "technique": "property-based testing (rapid) of concurrent workloads under the Go race detector; differential against sequential fresh-compile results",
-    "text": "Generated deterministic programs are compiled once and executed by 2-8 goroutines (1-12 repetitions each, all four entry points, some with injected faults) released together by a barrier while further goroutines call FromCache/FromFile on the same set, with GOMAXPROCS 2/4/16, in a binary built with -race and GORACE=halt_on_error. A race report kills the worker; the write-ahead journal identifies the workload, which is confirmed in fresh processes before it is reported. Every concurrent result must equal what the same context gives on a freshly compiled template executed alone. A second generator (C05.raceonly) runs programs with the nondeterministic constructs (random filter, lorem random, now) concurrently with the race detector as only oracle. Exploration-level: schedules are sampled.",
+    "text": "Generated deterministic programs are compiled once and executed by 2-8 goroutines (1-12 repetitions each, all four entry points, some with injected faults) released together by a barrier while further goroutines call FromCache/FromFile on the same set, with GOMAXPROCS 2/4/16, in a binary built with -race and GORACE=halt_on_error. A race report kills the worker; the write-ahead journal identifies the workload, which is confirmed in fresh processes before it is reported. Every concurrent result must equal what the same context gives on a freshly compiled template executed alone. A second generator (C05.raceonly) runs programs with the nondeterministic constructs (random filter, lorem random, now) concurrently with the race detector as only oracle. Exploration-level: schedules are sampled. A third workload (C05.coldset) lets 2-8 goroutines perform the very first compilations on a fresh set at once (FromFile / FromCache / FromString / FromBytes / RenderTemplateFile).",
     "note": "Trusted: the Go race detector and the harness' barrier. Schedules are sampled, not enumerated; the static facet (every write reachable from execution entry points) is not decided.",
     "design_ref": "DESIGN.md section 3, C05",
 }
@@ -92,7 +92,7 @@ TEXT["C03"] = {
 
 TEXT["C10"] = {
     "technique": "property-based testing (rapid); differential against a reference resolution of the generated hierarchy",
-    "text": "Generated inheritance chains of 1-5 templates in an in-memory loader (different directories, rooted and relative parent names) with random block sets per level (override with Super any number of times and in any position, inherit, add, nest, text outside blocks; base blocks nested in blocks, in live/dead if-branches and in for-loops). Every level is rendered twice and compared with an independent reference resolution (most-derived definition wins; Super = next less-derived definition, empty at the base; levels above the rendered one do not exist); the base is rendered before and after its children were compiled. Ten invalid shapes must fail to compile, directly or through another extends.",
+    "text": "Generated inheritance chains of 1-5 templates in an in-memory loader (different directories, rooted and relative parent names) with random block sets per level (override with Super any number of times and in any position, inherit, add, nest, text outside blocks; base blocks nested in blocks, in live/dead if-branches and in for-loops). Every level is rendered twice and compared with an independent reference resolution (most-derived definition wins; Super = next less-derived definition, empty at the base; levels above the rendered one do not exist); the base is rendered before and after its children were compiled. Ten invalid shapes must fail to compile, directly or through another extends. Loops iterate over distinct letters and definitions print the loop variable (Super must show the current iteration); afterwards any level is fetched in any order with FromCache / FromFile on a fresh set.",
     "note": "Trusted: the reference resolver c10Ref. Hierarchies in which blocks contain each other are excluded (no defined rendering).",
     "design_ref": "DESIGN.md section 3, C10",
 }
@@ -120,7 +120,7 @@ TEXT["C13"] = {
 
 TEXT["C08"] = {
     "technique": "property-based testing (rapid); differential against a reference resolver that walks the typed value descriptor",
-    "text": "Random nested context values (string- and int-keyed maps, []any, typed slices, arrays by value and by pointer, structs by value / pointer / nil pointer with exported, unexported, embedded, pointer and any-typed fields, value- and pointer-receiver methods, variadic and error-returning methods, functions of every accepted signature shape) are combined with access paths generated by walking the descriptor - valid ones and ones with a wrong turn (missing key, unexported field, out-of-range / negative index through a variable, step on nil, step on a scalar, wrong arity or argument type, failing function, call of a non-function) - and observed through {{ p }}, {{ p|length }} and {% if p %}. A reference resolver over the descriptor predicts value / empty / execution error; every template is evaluated twice. C08.hetero applies one parsed path inside a loop to values of different Go types with overlapping member names and compares with element-wise resolution. Shadowing (tag bindings over context over globals) is checked on fixed templates and, more broadly, by C12.",
+    "text": "Random nested context values (string- and int-keyed maps, []any, typed slices, arrays by value and by pointer, structs by value / pointer / nil pointer with exported, unexported, embedded, pointer and any-typed fields, value- and pointer-receiver methods, variadic and error-returning methods, functions of every accepted signature shape) are combined with access paths generated by walking the descriptor - valid ones and ones with a wrong turn (missing key, unexported field, out-of-range / negative index through a variable, step on nil, step on a scalar, wrong arity or argument type, failing function, call of a non-function) - and observed through {{ p }}, {{ p|length }} and {% if p %}. A reference resolver over the descriptor predicts value / empty / execution error; every template is evaluated twice. C08.hetero applies one parsed path inside a loop to values of different Go types with overlapping member names and compares with element-wise resolution. Shadowing (tag bindings over context over globals) is checked on fixed templates and, more broadly, by C12. A generated shadowing spec (C08.shadow) binds one name in any subset of globals / context and through 0-4 nested tags and reads it directly or inside included templates.",
     "note": "Trusted: the reference resolver c08Resolve and the value builder. Behaviours the property leaves open are discarded (listed in the evidence assumptions).",
     "design_ref": "DESIGN.md section 3, C08",
 }
@@ -134,7 +134,7 @@ TEXT["C19"] = {
 
 TEXT["C11"] = {
     "technique": "property-based testing (rapid) over virtual file trees and loader configurations; differential against a reference composition, recording loaders, canary files",
-    "text": "Virtual trees of up to 8 files (equal base names in different directories), 1-3 recording loaders with overlapping names and different contents, and acyclic reference graphs over include (static/lazy, with, only, if_exists), extends, import, ssi plain and parsed with names written rooted, relative, with .. and with detours, including names no loader serves. The output is compared with a reference composition (first loader wins, relative to the referring file, missing = error or nothing with if_exists, only hides includer variables, rooted literal = rooted computed); the loaders' Get logs must contain no name outside the referenced set, everything used must have been fetched through a loader, and the text of canary files at the same relative paths in the working directory must never appear.",
+    "text": "Virtual trees of up to 8 files (equal base names in different directories), 1-3 recording loaders with overlapping names and different contents, and acyclic reference graphs over include (static/lazy, with, only, if_exists), extends, import, ssi plain and parsed with names written rooted, relative, with .. and with detours, including names no loader serves. The output is compared with a reference composition (first loader wins, relative to the referring file, missing = error or nothing with if_exists, only hides includer variables, rooted literal = rooted computed); the loaders' Get logs must contain no name outside the referenced set, everything used must have been fetched through a loader, and the text of canary files at the same relative paths in the working directory must never appear. A second spec (C11.shipped) runs the same compositions through the loaders pongo2 ships (LocalFilesystemLoader with and without base directory on a real temporary tree, FSLoader, HttpFilesystemLoader), alone and several per set, each with its documented resolution rule.",
     "note": "Trusted: the recording loaders and the reference composer c11Ref. File-system reads that do not surface in output or errors would go unnoticed.",
     "design_ref": "DESIGN.md section 3, C11",
 }
@@ -148,7 +148,7 @@ TEXT["C02"] = {
 
 TEXT["C01"] = {
     "technique": "property-based testing (rapid) over grammar programs, token-mutated programs and lexeme soup + native coverage-guided fuzzing of raw bytes; crash / hang detection with a write-ahead journal",
-    "text": "Every case compiles and (if that succeeds) executes a generated template against a context holding the whole value universe of the property (also installed as Globals): grammar programs over every registered tag and filter (registry hook) with error-prone constructs, a crude grammar that mixes path steps, subscripts, calls and filters freely, random lexeme soup, and 1-3 token-level mutations of valid programs; in the thorough tier also raw bytes through Go's native fuzzer seeded with the repository's fixtures and hostile constants. The oracle is totality only: exactly one of (template, *Error) from compilation, Execute returns, no panic, the worker process survives (a death is attributed to the journalled case and confirmed in a fresh process), no case exceeds the hang bound.",
+    "text": "Every case compiles and (if that succeeds) executes a generated template against a context holding the whole value universe of the property (also installed as Globals): grammar programs over every registered tag and filter (registry hook) with error-prone constructs, a crude grammar that mixes path steps, subscripts, calls and filters freely, random lexeme soup, and 1-3 token-level mutations of valid programs; in the thorough tier also raw bytes through Go's native fuzzer seeded with the repository's fixtures and hostile constants. The oracle is totality only: exactly one of (template, *Error) from compilation, Execute returns, no panic, the worker process survives (a death is attributed to the journalled case and confirmed in a fresh process), no case exceeds the hang bound. The set's entry point is part of the case: FromFile, FromCache, FromString, FromBytes, RenderTemplateFile/String/Bytes, ExecuteBlocks.",
     "note": "Trusted: the harness' own context functions (total by construction) and the journal / confirmation logic of the driver. Absence of hangs only up to the generated sizes.",
     "design_ref": "DESIGN.md section 3, C01",
 }
